@@ -45,7 +45,12 @@ def make_problem(base):
         d = jnp.array([0.7, -0.4])
     m = jft.Model(fwd, domain=dom)
     lh = jft.Gaussian(d, noise_std_inv=lambda x: x / 0.5).amend(m)
-    k1, k2 = jr.split(jr.PRNGKey(base["key"]))
+    kk = base.get("key_kind", "legacy")
+    if kk == "legacy":
+        k0 = jr.PRNGKey(base["key"])
+    else:       # new-style typed keys; the implementation is part of the key's type
+        k0 = jr.key(base["key"], impl={"typed": "threefry2x32", "typed_rbg": "rbg"}[kk])
+    k1, k2 = jr.split(k0)
     pos = jft.Vector(jft.random_like(k1, m.domain)) * 0.1
     ns, sm = base["n_samples"], base["sample_mode"]
     kw = dict(
@@ -94,7 +99,8 @@ def gen_base(rng):
     return {"model": model, "nit": rng.choice([2, 3, 3, 4]), "n_samples": nsamp, "sample_mode": smode,
             "point_estimates": pe, "constants": co, "jit": rng.random() < 0.8,
             "resume_path": rng.random() < 0.3, "callback": rng.random() < 0.5,
-            "bufsize": rng.choice([1, 64, 4096, 8192, None]), "key": rng.randrange(1000)}
+            "bufsize": rng.choice([1, 64, 4096, 8192, None]), "key": rng.randrange(1000),
+            "key_kind": rng.choice(["legacy", "legacy", "typed", "typed_rbg"])}
 
 
 SIMPLE_BASE = {"model": "lin2", "nit": 2, "n_samples": 1, "sample_mode": "linear_resample",
@@ -220,7 +226,8 @@ def bases_for(tier, seed):
     n = 16 if tier == "quick" else 320
     rng = random.Random(core.h64(seed, "c24-bases"))
     bases = [dict(SIMPLE_BASE), dict(SIMPLE_BASE, n_samples=0, nit=3, bufsize=64),
-             dict(SIMPLE_BASE, model="nl3", n_samples=2, sample_mode="nonlinear_resample", nit=3, callback=True)]
+             dict(SIMPLE_BASE, model="nl3", n_samples=2, sample_mode="nonlinear_resample", nit=3, callback=True),
+             dict(SIMPLE_BASE, key_kind="typed_rbg", nit=3), dict(SIMPLE_BASE, key_kind="typed", n_samples=2)]
     while len(bases) < n:
         bases.append(gen_base(rng))
     return bases
